@@ -4,6 +4,7 @@ This module provides convenience functions for saving and loading of odML files.
 
 import os
 from .tools.odmlparser import ODMLReader, ODMLWriter
+from .tools.parser_utils import RDF_CONVERSION_FORMATS
 
 
 def load(filename, backend="xml", show_warnings=True):
@@ -22,6 +23,14 @@ def load(filename, backend="xml", show_warnings=True):
         raise FileNotFoundError(msg)
 
     reader = ODMLReader(backend, show_warnings)
+    if backend.upper() == "RDF":
+        # The RDF reader requires the serialization format of the file;
+        # identify it by the file extension the RDF writer uses.
+        file_ext = os.path.splitext(filename)[1]
+        for rdf_format, rdf_ext in RDF_CONVERSION_FORMATS.items():
+            if rdf_ext == file_ext:
+                return reader.from_file(filename, rdf_format)
+
     return reader.from_file(filename)
 
 
